@@ -1,7 +1,7 @@
 SPECIFICATION Spec
 CONSTANTS
   Ids = {1, 2}
-  MaxTasks = 4
+  MaxTasks = 3
   NWorkers = 2
   Variant = "code"
 INVARIANTS OnePendingPerId Replaces CancelTrueMeansPrevented CancelFalseMeansNonePending Justified Tracked
